@@ -107,3 +107,21 @@ func errAs(fr *frame, err iface, elem types.Type, tp *value) bool {
 		}
 	}
 }
+
+func init() {
+	// (*errors.joinError).Error builds its result with unsafe.String(&b[0], len(b))
+	externals["(*errors.joinError).Error"] = func(fr *frame, args []value) value {
+		p := args[0].(*value)
+		errs, _ := (*p).(structure)[0].([]value)
+		var out symstr
+		for k, e := range errs {
+			if k > 0 {
+				out = append(out, uint8('\n'))
+			}
+			it := e.(iface)
+			m := methodByName(fr, it.t, "Error")
+			out = append(out, toSymstr(call(fr.i, fr, 0, m, []value{it.v}))...)
+		}
+		return normStr(out)
+	}
+}
